@@ -17,6 +17,11 @@ Static clauses decided (necessary conditions of C11):
  UNDO    every key-index mutation performed by a function of the undo protocol is restored when the enclosing
          operation fails (the index clause of C13's COVER rule): otherwise a live object disappears from its index and a
          second object with the same key can be created in the session.
+ RELEASE "each unique key value present in the session maps to the single object that currently holds it": when an object gives up a
+         key value the four index updaters (update_simple_index, update_composite_index and their db_ variants) remove the old
+         entry, and that removal depends on the OLD value only (it is not nested under a test of the new value): giving up a key
+         for None / a partially-None composite must release the old value too, otherwise the value stays mapped to an object
+         that no longer holds it and nobody else can take it.
 """
 NOT_DECIDED = "consistency of the indexes across arbitrary histories (inductive invariant); class refinement on reload"
 
@@ -85,8 +90,32 @@ def run(ctx):
     for f, creates in C13.protocol_functions(ctx):
         C13.check_function(ctx, f, creates, only_cover_locs=('index',), prefix='C11-UNDO')
 
+    # ---------------------------------------------------------------- RELEASE
+    nrel = 0
+    for q in ('SessionCache.update_simple_index', 'SessionCache.update_composite_index', 'SessionCache.db_update_simple_index', 'SessionCache.db_update_composite_index'):
+        f = repo.fn('pony.orm.core', q)
+        old, new = f.params[3], f.params[4]
+        par = {}
+        for x in ast.walk(f.node):
+            for ch in ast.iter_child_nodes(x): par[id(ch)] = x
+        rem = [x for x in walk_no_nested(f.node) if (isinstance(x, ast.Delete) and any(isinstance(t, ast.Subscript) and norm(t.slice) == old for t in x.targets))
+               or (isinstance(x, ast.Expr) and isinstance(x.value, ast.Call) and isinstance(x.value.func, ast.Attribute) and x.value.func.attr == 'pop'
+                   and x.value.args and norm(x.value.args[0]) == old)]
+        nrel += 1
+        ok = bool(rem); why = 'no statement removes the old key value `%s` from the index' % old
+        for r in rem:
+            x = r
+            while id(x) in par:
+                x = par[id(x)]
+                if isinstance(x, (ast.If, ast.While)) and any(isinstance(nm, ast.Name) and nm.id == new for nm in ast.walk(x.test)):
+                    ok = False; why = 'the removal `%s` is nested under `%s`, a test of the NEW value: when the object gives the key up for None the old value stays in the index' % (norm(r), norm(x.test))
+        ctx.ob('C11-RELEASE.given-up-key-value-leaves-the-index', f, rem[0] if rem else f.node, ok, '' if ok else why, node=rem[0] if rem else None,
+               expected='`if %s is not None: del cache_index[%s]` at the top level of the function' % (old, old))
+    ctx.floor('C11-RELEASE', nrel, 4, 'index updaters')
+
 
 MUTANTS = [
+    dict(id='C11-r1', file='pony/orm/core.py', fn='SessionCache.update_composite_index', old="        if prev_vals is not None: del cache_index[prev_vals]", new="            if prev_vals is not None: del cache_index[prev_vals]", expect='C11-RELEASE'),
     dict(id='C11-m1', file='pony/orm/core.py', fn='EntityMeta._get_from_identity_map_', old='        else: obj = cache_index.get(pkval)\n', new='        else: obj = None\n', expect='C11-'),
     dict(id='C11-m2', file='pony/orm/core.py', fn='Entity._delete_', old='                        undo_list.append((pk_index, obj._pkval_))\n', new='', expect='C11-UNDO'),
     dict(id='C11-m3', file='pony/orm/core.py', fn='unpickle_entity', old="    obj = entity._get_from_identity_map_(pkval, 'loaded')", new="    obj = object.__new__(entity); obj._pkval_ = pkval; obj._status_ = 'loaded'", expect='C11-NEW'),
